@@ -167,3 +167,5 @@ def setup(E):  # noqa: F811
 
     # bounded stand-ins for the plain-reconciliation solvers (C01 / C05 / C04): thl, exhaustive, generate_all vs brute force
     E._c01_all = c01.standin("reconciliation:thl-exh-vs-brute-force")
+    E._c05_wit = c01.witness_standin("reconciliation:F-COHERENCE-witnesses", ids=["F-COHERENCE witness 1"])
+    E._c01_wit = c01.witness_standin("reconciliation:F-COHERENCE-cost-witness", ids=["F-COHERENCE witness 2"])
